@@ -78,6 +78,7 @@ RelOK(rel, out) ==
       [] rel.shape \in {"ident", "identbadtype", "identnotype"} -> out = "accept" => (rel.to1 /\ rel.got = rel.listed)
       [] rel.shape = "badtypenoid" -> out = "accept" => rel.got = <<>>
       [] rel.shape = "list"  -> out = "accept" => (~rel.to1 /\ rel.got = rel.listed)
+      [] rel.shape = "listbadtail" -> out = "reject"     \* every member of the list is of the target type
       [] OTHER -> FALSE
 
 \* an identifier object for a to-many, or a list for a to-one, cannot be accepted
@@ -91,6 +92,7 @@ PayloadOK(e) ==
     /\ (\E i \in 1..Len(e.rels) : ~ShapeFits(e.rels[i])) => e.out = "reject"
     /\ e.unknownrel => e.out = "reject"          \* a relationship the type does not have, whatever its object carries
     /\ e.trailing => e.out = "reject"            \* the payload is one JSON value, nothing after it
+    /\ e.unknowntype => e.out = "reject"         \* every resource's type exists in the schema
     /\ e.out = "accept" => e.attrs_same /\ e.absent_zero /\ e.idtype_same /\ e.remarshal_same
 
 \* the members of an accepted array of resource payloads: each keeps its own type, id and values
@@ -126,6 +128,7 @@ PartialOK(e) ==
     /\ e.out # "panic" => e.part = e.out                 \* accepted iff full unmarshaling accepts
     /\ e.unknownrel => e.part = "reject"
     /\ e.trailing => e.part = "reject"
+    /\ e.unknowntype => e.part = "reject"
     /\ e.part = "accept" =>
           /\ e.pname_ok
           /\ AsSet(e.pattrs) = AsSet(e.present) /\ Len(e.pattrs) = Cardinality(AsSet(e.present))
